@@ -86,7 +86,9 @@ SEQ4 = [(*SEQ3[0], T.DEFAULT), (*SEQ3[1], I("http://a/g"))]
 PRESETS = ((8, 0, 0), (16, 0, 0), (127, 0, 0), (4000, 150, 32))
 
 
-FLAGS = [(g, r, lt) for g in (False, True) for r in (False, True) for lt in (0, None)]
+# (generalized, rdf_star, logical type, namespace declarations i.e. version 2)
+FLAGS = [(g, r, lt, ns) for ns in (True, False) for g in (False, True) for r in (False, True)
+         for lt in (0, None)]
 
 
 def concrete_variants(cls: str, preset, name: str, flags=(True, True, None)):
@@ -101,9 +103,10 @@ def concrete_variants(cls: str, preset, name: str, flags=(True, True, None)):
     from pyjelly.serialize.ioutils import write_delimited, write_single  # noqa: PLC0415
 
     seq = SEQ3 if cls == "triple" else SEQ4
-    g, r, lt = flags
+    g, r, lt = flags[:3]
+    ns = bool(flags[3]) if len(flags) > 3 else False
     opts = DR.make_options(cls, preset, 250, False, lt, stream_name=name, generalized=g,
-                           rdf_star=r)
+                           rdf_star=r, ns=ns)
     opts.flow = ManualFrameFlow(logical_type=opts.logical_type)
     stream = DR.g_stream(cls, opts)
     stream.enroll()
@@ -136,6 +139,18 @@ def run_concrete(case) -> list[tuple[str, str]]:
     from mc import faultio  # noqa: PLC0415
 
     for label, data in concrete_variants(cls, preset, name, tuple(case.get("flags", (True, True, None)))):
+        # the classification the parser itself reports for this stream
+        try:
+            from pyjelly.parse.ioutils import get_options_and_frames  # noqa: PLC0415
+
+            popts, _ = get_options_and_frames(io.BytesIO(data))
+            if bool(popts.params.delimited) != (label != "non-delimited"):
+                fails.append((label, f"{label} stream (header {data[:3].hex()}, version "
+                                     f"{popts.params.version}) is reported by get_options_and_frames "
+                                     f"as delimited={popts.params.delimited}"))
+        except Exception:  # noqa: BLE001
+            pass  # (a stream that fails to parse is reported below)
+
         def after_preamble(k: int):
             r = io.BufferedReader(faultio.ScheduleRaw(b"P" * k + data, seekable=True),
                                   buffer_size=16)
@@ -215,7 +230,7 @@ def concrete_shard(job) -> dict:
         for cls in ("triple", "quad"):
             for preset in PRESETS:
                 for ascii_ in (True, False):
-                    for flags in (FLAGS if nlen <= 12 else FLAGS[-1:]):
+                    for flags in (FLAGS if nlen <= 12 else (FLAGS[-1], FLAGS[7])):
                         case = {"level": "stream", "cls": cls, "preset": list(preset),
                                 "name_len": nlen, "ascii": ascii_, "flags": list(flags)}
                         acc.evals += 5 * 10
